@@ -48,7 +48,7 @@ func runC07R(r *simkit.Run, c Cfg) {
 		for steps := 0; steps < 50 && pubPark == nil; steps++ {
 			r.Quiesce()
 			for _, p := range r.Enabled() {
-				if p.Site == "pcache.lock" {
+				if p.Site == "pcache.lock" || p.Site == "pcache.enter" {
 					r.Release(p, nil)
 					break
 				}
